@@ -6,13 +6,14 @@ from ..mirutil import Defs, Tracer, call_matches, callee_name, const_value, fiel
 from .C20 import PANIC_CALLS, _generated, _ptrcheck
 
 LEVEL = 'other'
-EXPLANATION = ('Only the "never crashes" clause is decided: every panic-capable construct reachable from '
-               'Transform2::from_operations, WyckoffSite::new and get_wallpaper_group is enumerated; the only ones allowed are '
-               'the matrix IndexMut writes transform[(row, col)], whose column is a constant < 3 and whose row is the '
-               'enumerate() counter over a Vec whose length was narrowed to exactly 2 by the two guards that dominate the '
-               'loop (interval refinement along the dominating branch edges), on a Vec that is never resized. That the '
-               'parsed map equals the denotation of every grammar string is a statement about executing a character state '
-               'machine over an infinite language and is NOT decided by this family of technique.')
+EXPLANATION = ('(R1/R2) "never crashes": every panic-capable construct reachable from Transform2::from_operations, WyckoffSite::new '
+               'and get_wallpaper_group is enumerated; the only ones allowed are the matrix writes transform[(row, col)], whose column is a '
+               'constant < 3 and whose row is the enumerate() counter over a Vec whose length was narrowed to exactly 2 by the two guards that '
+               'dominate the loop, on a Vec that is never resized. (R3) necessary conditions of "parses to the affine map it denotes": one '
+               'step of the character loop is executed symbolically from the block that receives the character, with a fully symbolic '
+               'parser state, and must satisfy the lemmas that follow from the notation itself (blank = identity, \'-\' => sign := -1, x/y '
+               'store and consume the pending sign in their column, \'/\' => pending division, digit => sign*digit or constant/digit, the '
+               'constant is stored in column 2 after the characters). That EVERY grammar string parses to its denotation is NOT decided.')
 
 
 def guard_interval(b, cfg, tr, x_locals, target_bb):
